@@ -3,7 +3,7 @@
    (parse_string's assert_empty_token).  `Table 1::'a+b'` and `it'''s`, both printed by the
    reader, are instances. *)
 From Coq Require Import List Arith NArith Bool Lia.
-From NP Require Import Model.PyBase Model.Tokenizer Proofs.TokenizerP.
+From NP Require Import Model.PyBase Model.Tokenizer Proofs.TokenizerP Proofs.TokenizerR.
 Import ListNotations.
 Open Scope N_scope.
 
@@ -71,3 +71,61 @@ Lemma reader_forms_rejected :
   tokenize [84;97;98;108;101;32;49;58;58;39;97;43;98;39] = Err TokenizerError /\
   tokenize [105;116;39;39;39;115] = Err TokenizerError.
 Proof. split; vm_compute; reflexivity. Qed.
+
+(* ------------------------------------------------------------------ what is accepted: reference texts standing alone *)
+(* a bare name of plain characters is one operand *)
+Theorem plain_reference_accepted_lemma p :
+  p <> [] -> Forall (fun c => plain c = true) p -> tokenize p = Ok [make_operand py_float_ok p].
+Proof.
+  intros Hne Hp. unfold tokenize, tokenize_gen.
+  rewrite <- (app_nil_r p) at 2. rewrite run_plain by (auto; rewrite app_nil_r; lia).
+  rewrite run_nil. unfold save_token. cbn [tokbuf st0 items stack]. rewrite app_nil_r.
+  destruct (rev p) as [|b0 b] eqn:E.
+  { exfalso. apply Hne. rewrite <- (rev_involutive p), E. reflexivity. }
+  cbn [items]. rewrite <- E, rev_involutive. reflexivity.
+Qed.
+
+Lemma first_step_quoted c rest m :
+  (c = DQ /\ match_dq (c :: rest) = Some m) \/ (c = SQ /\ match_sq (c :: rest) = Some m) ->
+  m = N.of_nat (length (c :: rest)) ->
+  tokenize (c :: rest) = Ok [make_operand py_float_ok (c :: rest)].
+Proof.
+  intros H ->. unfold tokenize, tokenize_gen. rewrite run_S.
+  assert (E : step py_float_ok TokenizerError st0 (c :: rest) =
+              Ok (push_item st0 (make_operand py_float_ok (c :: rest)), N.of_nat (length (c :: rest)))).
+  { unfold step. destruct H as [[-> H]|[-> H]].
+    - replace (mem DQ [PLUS; MINUS]) with false by reflexivity. cbn [andb].
+      replace (mem DQ enders) with false by reflexivity.
+      replace ((DQ =? DQ) || (DQ =? SQ)) with true by reflexivity. cbn [tokbuf st0].
+      replace (DQ =? DQ) with true by reflexivity. rewrite H, Nnat.Nat2N.id, firstn_all. reflexivity.
+    - replace (mem SQ [PLUS; MINUS]) with false by reflexivity. cbn [andb].
+      replace (mem SQ enders) with false by reflexivity.
+      replace ((SQ =? DQ) || (SQ =? SQ)) with true by reflexivity. cbn [tokbuf st0].
+      replace (SQ =? DQ) with false by reflexivity. rewrite H, Nnat.Nat2N.id, firstn_all. reflexivity. }
+  rewrite E. rewrite Nnat.Nat2N.id, dropN_skipn, skipn_all, run_nil. reflexivity.
+Qed.
+
+(* a quoted reference  'a+b'  /  'a+b':'c d'  standing alone is one operand *)
+Theorem quoted_reference_accepted_lemma w :
+  sq_lang w -> tokenize w = Ok [make_operand py_float_ok w].
+Proof.
+  intros Hw. assert (Hh : exists r, w = SQ :: r).
+  { destruct Hw as [n0 conts Hn _]. destruct (name_lang_head _ Hn) as (r & ->). cbn. eauto. }
+  destruct Hh as (r & ->).
+  destruct (match_sq (SQ :: r)) as [m|] eqn:Em.
+  - apply first_step_quoted with (m := m); [right; auto|].
+    pose proof (sq_scanner_longest_lemma _ _ Em (SQ :: r) [] (eq_sym (app_nil_r _)) Hw) as L.
+    destruct (sq_scanner_sound_lemma _ _ Em) as (w' & rest & E & _ & ->).
+    apply (f_equal (@length N)) in E. rewrite app_length in E. lia.
+  - exfalso. exact (sq_scanner_complete_lemma _ Em (SQ :: r) [] (eq_sym (app_nil_r _)) Hw).
+Qed.
+
+(* a string literal standing alone is one TEXT operand *)
+Theorem string_literal_accepted_lemma w :
+  dq_lang w -> tokenize w = Ok [{| tval := w; tty := OPERAND; tsub := S_TEXT |}].
+Proof.
+  intros Hw. assert (Hh : exists r, w = DQ :: r) by (destruct Hw; eauto). destruct Hh as (r & ->).
+  assert (Em : match_dq (DQ :: r) = Some (N.of_nat (length (DQ :: r)))).
+  { apply dq_scanner_is_regex_lemma. exists (DQ :: r), []. rewrite app_nil_r. repeat split; auto. }
+  rewrite (first_step_quoted DQ r _ (or_introl (conj eq_refl Em)) eq_refl). reflexivity.
+Qed.
